@@ -154,6 +154,10 @@ func (p *wktParser) position(ct int) ([]gm.F, error) {
 }
 
 func (p *wktParser) seq(ct int) ([]gm.F, error) {
+	if p.isEmpty() {
+		// an empty ring of a non-empty polygon (callers handle EMPTY for whole geometries before coming here)
+		return []gm.F{}, nil
+	}
 	if err := p.expect("("); err != nil {
 		return nil, err
 	}
@@ -396,6 +400,10 @@ func WKTTokens(g gm.G, r Respell) []WKTTok {
 		}
 	}
 	seq := func(fs []gm.F, ct int) {
+		if len(fs) == 0 {
+			emit("id", "EMPTY")
+			return
+		}
 		emit("(", "(")
 		d := gm.Dim(ct)
 		for i := 0; i+d <= len(fs); i += d {
